@@ -324,7 +324,8 @@ def _buffer(ctx: Ctx, c: Collector) -> None:
             e = st[-1]
             f = lambda i: ("idx", p.term, T.const(i))  # noqa: E731
             want_t = ("idx", call(("attr", call(("attr", inp, "setdefault"), f(3), ("dict", ())), "setdefault"), f(4), ("dict", ())), f(2))
-            got_t, got_v = unalias(e.term[1], s, fi), unalias(e.term[2], s, fi)
+            popped = {b.term[1]: p.term for b in s.of_kind("bind") if b.term[2] == p.term}
+            got_t, got_v = T.replace(unalias(e.term[1], s, fi), popped), T.replace(unalias(e.term[2], s, fi), popped)
             if got_t != want_t or got_v != f(5):
                 pr.append("reader and writer disagree on the tuple layout: the popped entry is not stored as inputs[entry[3]][entry[4]][entry[2]] = entry[5]")
             if e.guards != p.guards:
